@@ -9,7 +9,7 @@
   is the list an iterator still has to yield; `Rel E st sp` says that every model object
   denotes the specification object with the same pool index.
 -/
-import ALV.Lemmas.C03Frame
+import ALV.Lemmas.C03Run
 import ALV.Lemmas.C03Periodic
 import ALV.Lemmas.C03Counts
 import ALV.Common.Audit
@@ -28,22 +28,6 @@ theorem step_refines {E : List (List α)} {st : St α} {sp : SPool α} (R : Rel 
       Rel E' st' sp' := by
   obtain ⟨E', F, st', sp', o, S⟩ := ALV.C03.step_refines R op hop
   exact ⟨E', F, st', sp', o, S.run, S.spec, S.rel⟩
-
-theorem rel_empty : Rel ([] : List (List α)) St.empty [] :=
-  ⟨⟨rfl, fun k hub hk => by simp [St.empty] at hk⟩, fun i => by simp [St.empty]; exact trivial⟩
-
-theorem run_refines_from {E : List (List α)} {st : St α} {sp : SPool α} (R : Rel E st sp)
-    (ops : List (Op α)) (hops : ∀ op, op ∈ ops → op.Fin) :
-    ∃ F, ∀ f, F ≤ f → run f st ops = specRun sp ops := by
-  induction ops generalizing E st sp with
-  | nil => exact ⟨0, fun f _ => rfl⟩
-  | cons op ops ih =>
-    obtain ⟨E', F1, st', sp', o, S⟩ := ALV.C03.step_refines R op (hops op (by simp))
-    obtain ⟨F2, h2⟩ := ih S.rel (fun x hx => hops x (by simp [hx]))
-    refine ⟨max F1 F2, fun f hf => ?_⟩
-    have r1 := S.run f (Nat.le_trans (Nat.le_max_left _ _) hf)
-    have r2 := h2 f (Nat.le_trans (Nat.le_max_right _ _) hf)
-    simp [run, specRun, r1, S.spec, r2]
 
 /-- **C03.1 (histories)** for every history of operations over finite sources, of any length,
 starting from nothing: with enough fuel the model terminates at every step and the whole
@@ -166,26 +150,6 @@ theorem peek_pure {E : List (List α)} {st : St α} {sp : SPool α} (R : Rel E s
         ∃ it', st'.pool[j]? = some (Obj.stream it') ∧ den E' it' = den E it := by
   obtain ⟨E', F, st', o, run, ind⟩ := independent R (.peek i c) trivial
   exact ⟨E', F, st', o, run, fun j it hit => (ind j (by simp [Op.touched])).1 it hit⟩
-
-theorem specRun_uses (s : LSeq α) : ∀ (k m : Nat) (rest : SPool α),
-    specRun (.hub s m :: rest) (List.replicate k (.new (.obj 0))) =
-      (List.range k).map (fun j => some (if j < m then Obs.new (rest.length + 1 + j) else .err "IndexError")) := by
-  intro k
-  induction k with
-  | zero => intro m rest; rfl
-  | succ k ih =>
-    intro m rest
-    rw [List.range_succ_eq_map, List.replicate_succ]
-    cases m with
-    | zero =>
-      have := ih 0 rest
-      simp [specRun, specStep, specSrc, this]
-    | succ u =>
-      have := ih u (rest ++ [.stream s])
-      simp [specRun, specStep, specSrc, this]
-      intro a _
-      have e : rest.length + 1 + 1 + a = rest.length + 1 + (a + 1) := by omega
-      rw [e]
 
 /-- **C03.3a** a thub hands out exactly `n` uses: of `k` successive `Stream(hub)` requests the
 first `n` produce a new Stream, every later one raises IndexError. -/
